@@ -73,6 +73,8 @@ structure Lb where
   useq : Nat := 1
   useqZero : Nat := 0
   useqLast : Nat := 0
+  /-- `useq_zero == -1`: set by `lbuf_unsaved`, cleared by `lbuf_saved` -/
+  unsaved : Bool := false
 deriving Repr
 
 def make : Lb := {}
@@ -231,12 +233,15 @@ def seqAt (lb : Lb) : Nat :=
 /-- `lbuf_modified(lb)`: bumps the sequence counter and reports dirtiness -/
 def modified (lb : Lb) : Bool × Lb :=
   let lb1 := { lb with useq := lb.useq + 1 }
-  (seqAt lb1 != lb1.useqZero, lb1)
+  (lb1.unsaved || seqAt lb1 != lb1.useqZero, lb1)
 
 /-- `lbuf_saved(lb, clear)` without the trailing `lbuf_modified(xb)` (which concerns the *current* buffer) -/
 def savedCore (lb : Lb) (clear : Bool) : Lb :=
   let lb1 := if clear then { lb with hist := [], histU := 0, useqLast := lb.useq } else lb
-  { lb1 with useqZero := seqAt lb1 }
+  { lb1 with useqZero := seqAt lb1, unsaved := false }
+
+/-- `lbuf_unsaved(lb)` -/
+def unsavedMark (lb : Lb) : Lb := { lb with unsaved := true }
 
 /-- `lbuf_globset` / `lbuf_globget` -/
 def globSet (lb : Lb) (pos dep : Nat) : Lb := { lb with glob := lb.glob.set pos (lb.glob.getD pos 0 ||| (1 <<< dep)) }
